@@ -34,6 +34,10 @@ impl Ptr {
     pub fn wrapping_add(self, n: usize) -> (r: Ptr)
         ensures r.a == wrap(self.a + n), r.lo == self.lo, r.hi == self.hi, r.live == self.live
     { Ptr { a: self.a.wrapping_add(n), lo: self.lo, hi: self.hi, live: self.live } }
+    #[verifier::external_body]
+    pub fn wrapping_offset(self, n: isize) -> (r: Ptr)
+        ensures r.a == wrap(self.a + n + 0x1_0000_0000_0000_0000), r.lo == self.lo, r.hi == self.hi, r.live == self.live
+    { Ptr { a: self.a.wrapping_add(n as usize), lo: self.lo, hi: self.hi, live: self.live } }
     pub fn wrapping_sub(self, n: usize) -> (r: Ptr)
         ensures r.a == wrap(self.a - n + 0x1_0000_0000_0000_0000), r.lo == self.lo, r.hi == self.hi, r.live == self.live
     { Ptr { a: self.a.wrapping_sub(n), lo: self.lo, hi: self.hi, live: self.live } }
